@@ -338,3 +338,4 @@ H("C19", "css/counters", "VxH_C19_extends_merge", reach=["rendered"], bounds="a 
 H("C06", "css/parser", "VxH_C06_escape6", reach=["tokenized", "replaced", "kept"], bounds="backslash + six symbolic hexadecimal digits (either case) + a space: all 16^6 code point values at once", quick={"shards": 6})
 H("C03", "css/selector", "VxH_C05_spec", reach=["done"], bounds="selector specificity composition (:is / :not / :has take their most specific argument), see C05")
 H("C15", "html/document", "VxH_C16_paint", reach=["laid-out", "drawn"], bounds="html > body > (section, article > nav, aside), unique background / border / outline colours; section {static,relative} x {z auto,-1,1} x {opaque,translucent}; article {static,relative} x {z auto,1} x {float none,left}; aside {static,relative} x {z auto,-1,0,1} (thorough: x translucent)", quick={"maxsteps": 200000000, "time": "800s", "shards": 8}, thorough={"maxsteps": 200000000, "shards": 14})
+H("C04", "html/tree", "VxH_C04_initial_computed", reach=["computed", "recomputed"], bounds="the 18 properties whose initial value needs computing x {root, child}, with solid border / outline / column-rule styles and float: left in force")
